@@ -77,7 +77,7 @@ func (c10) Info() core.Info {
 			"closed lists and Open() results returned earlier must not change under later calls (they are the caller's)",
 		},
 		SimTimeUnit:    "sim_ticks_90khz",
-		RequiredProbes: []string{"breakaway_then_closer", "breakaway_then_explicit_close_below", "resumption_with_breakaway", "resumption_without_breakaway", "second_breakaway", "dup_within_ring", "dup_beyond_ring", "timer_close_hit", "timer_close_miss", "multi_descriptor_signal", "pts_wrap", "no_pts", "vss_pair", "open_depth_ge4", "transport_path", "same_object_twice", "held_lists_checked"},
+		RequiredProbes: []string{"breakaway_then_closer", "breakaway_then_explicit_close_below", "resumption_with_breakaway", "resumption_without_breakaway", "second_breakaway", "dup_within_ring", "dup_beyond_ring", "timer_close_hit", "timer_close_miss", "multi_descriptor_signal", "pts_wrap", "no_pts", "vss_pair", "open_depth_ge4", "transport_path", "same_object_twice", "held_lists_checked", "caller_wipes_open_list"},
 	}
 }
 
@@ -540,6 +540,18 @@ func (c10) Exec(script interface{}, c *core.Ctx) {
 		c.Probe("transport_path")
 	}
 
+	nOpenCalls := 0
+	sameListFn := func(a, b []scte35.SegmentationDescriptor) bool {
+		if len(a) != len(b) {
+			return false
+		}
+		for i := range a {
+			if a[i] != b[i] {
+				return false
+			}
+		}
+		return true
+	}
 	// lists handed out earlier (closed lists, Open() results) belong to the caller: later
 	// calls must not change them
 	type heldList struct {
@@ -578,6 +590,23 @@ func (c10) Exec(script interface{}, c *core.Ctx) {
 				return o, false
 			}
 			hold(o, "open")
+			// every third call the caller also takes a second list and wipes it: the returned
+			// list is the caller's, the tracker must not be looking at the same memory
+			nOpenCalls++
+			if nOpenCalls%3 == 0 {
+				var o2 []scte35.SegmentationDescriptor
+				if !c.Call("State.Open(scribbled)", func() { o2 = st.Open() }) {
+					return o, false
+				}
+				if !sameListFn(o, o2) {
+					c.Fail("open_stable", "two_open_calls_in_a_row_differ", len(o2), len(o))
+					return o, false
+				}
+				for i := range o2 {
+					o2[i] = nil
+				}
+				c.Probe("caller_wipes_open_list")
+			}
 		}
 		return o, ok
 	}
